@@ -902,7 +902,16 @@ static void caseHull(Rng& r, Ctx& c)
                                            VectorDouble({f.X(gx0), f.Y(gy0)})));
   if (!g) return;
   int ng = g->getSampleNumber();
-  // a previous selection on the target must not matter: "all samples must be checked"
+  // a previous selection on the target must not matter: "all samples must be checked as a sample, initially masked, can be
+  // masked OFF as it belongs to the convex hull" (db_selhull): every other case the grid carries one, masking half of its nodes
+  if (c.icase % 2 == 0)
+  {
+    Rng r2(c.seed, "C20presel", (uint64_t)c.icase);
+    VectorDouble pre(ng);
+    for (auto& v : pre) v = r2.coin(0.5) ? 1. : 0.;
+    g->addSelection(pre, "presel");
+    c.probe("hull-target-with-previous-selection");
+  }
   int err = g->addSelectionFromDbByConvexHull(db.get(), dilate);
   if (!c.truth("hull-select", KH(":addSelectionFromDbByConvexHull-failed"), err == 0, fmt("error code %d", err))) return;
   VectorDouble sv = g->getColumnByLocator(ELoc::SEL, 0);
